@@ -40,14 +40,15 @@ from .. import core
 from ..lit_util import load_local_findings
 
 PID = "C14"
-NUM_ALPHABET = ["0", "1", "7", "9", "_", ".", "e", "E", "x", "X", "o", "O", "b", "B", "+", "-"]
+NUM_ALPHABET_FULL = ["0", "1", "7", "8", "9", "_", ".", "e", "E", "x", "X", "o", "O", "b", "B", "+", "-"]
+NUM_ALPHABET_QUICK = ["0", "1", "7", "8", "9", "_", ".", "e", "E", "x", "o", "b", "B", "+", "-"]
 STR_ALPHABET_QUICK = ["q", "d", "bs", "sp", "n", "x", "o0", "o7", "a", "g", "HH", "NA", "LF"]
 STR_ALPHABET_FULL = STR_ALPHABET_QUICK + ["u", "d9"]
 
 
-def num_cfg(maxlen, from_file):
+def num_cfg(maxlen, from_file, alphabet=NUM_ALPHABET_FULL):
     return f"""CONSTANTS
-  Alphabet = {{{", ".join(core.tla_str(c) for c in NUM_ALPHABET)}}}
+  Alphabet = {{{", ".join(core.tla_str(c) for c in alphabet)}}}
   MaxLen = {maxlen}
   FromFile = {"TRUE" if from_file else "FALSE"}
 SPECIFICATION NumSpec
@@ -133,9 +134,11 @@ def check_number(ck, env, rec, origin, stats, value=None, signed=None):
     real_single = isinstance(real, list) and len(real) == 1 and real[0][0] in ("integer", "float")
     case = {"kind": "number", "s": s, "origin": origin, "spec": rec}
     if real != spec:
-        if spec_single or real_single:
+        numeric = isinstance(real, tuple) or any(t in spec for t in spec if t[0] in ("integer", "float") and t not in real) \
+            or any(t[0] in ("integer", "float") and t not in spec for t in real)
+        if spec_single or real_single or numeric:
             ck.violation(dict(case, real=real), f"spelling {s!r}: the lexer splits it as {real}, the literal syntax "
-                         f"(Literals.tla) as {spec}", {"kind": "number-split", "single": "spec" if spec_single else "real"})
+                         f"(Literals.tla) as {spec}", {"kind": "number-split", "single": "spec" if spec_single else "real" if real_single else "neither"})
         else:
             stats["split_drift"] += 1
             ck.extra.setdefault("drift", [])
@@ -152,7 +155,12 @@ def check_number(ck, env, rec, origin, stats, value=None, signed=None):
             ck.violation(case, f"the lexer reads {s!r} as one {real[0][0]} token but Python rejects the spelling ({type(e).__name__})",
                          {"kind": "number-not-python", "type": real[0][0]})
             return
-    tok = [t for t in env.lexer.tokenize("{{ " + s + " }}")][1]
+    try:
+        tok = [t for t in env.lexer.tokenize("{{ " + s + " }}")][1]
+    except Exception as e:  # noqa
+        ck.violation(dict(case, python=repr(py)), f"the lexer reads {s!r} as one {real[0][0]} token (Python: {py!r}) but fails to convert it: "
+                     f"{type(e).__name__}: {e}", {"kind": "number-value", "type": real[0][0], "error": type(e).__name__})
+        return
     if not same(tok.value, py):
         ck.violation(dict(case, lexer=repr(tok.value), python=repr(py)),
                      f"the lexer reads {s!r} as {tok.value!r}, Python as {py!r}", {"kind": "number-value", "type": real[0][0]})
@@ -250,12 +258,13 @@ def run_numbers(ck, env):
     quick = ck.tier == "quick"
     maxlen = 4 if quick else 5
     stats = {"single": 0, "rendered": 0, "split_drift": 0}
-    r = core.run_tlc(PID, "Literals", num_cfg(maxlen, False), name="numbers", workers=8, timeout=3000, heap="8g")
+    alphabet = NUM_ALPHABET_QUICK if quick else NUM_ALPHABET_FULL
+    r = core.run_tlc(PID, "Literals", num_cfg(maxlen, False, alphabet), name="numbers", workers=8, timeout=3000, heap="8g")
     ck.add_tlc(r, f"Literals numbers: all spellings <= {maxlen}")
     if not r.ok:
         return
     lines = set(r.printed())
-    expect = sum(len(NUM_ALPHABET) ** k for k in range(1, maxlen + 1))
+    expect = sum(len(alphabet) ** k for k in range(1, maxlen + 1))
     if len(lines) != expect:
         raise core.MachineryError(f"Literals.tla printed {len(lines)} spellings, expected {expect}")
     taken = {}
@@ -263,9 +272,8 @@ def run_numbers(ck, env):
         rec = json.loads(line)
         for t in rec["toks"]:
             taken[t["type"]] = taken.get(t["type"], 0) + 1
-        check_number(ck, env, rec, "exhaustive", stats)
-        if len(ck.violations) > 200:
-            break
+        if len(ck.violations) <= 200:
+            check_number(ck, env, rec, "exhaustive", stats)
     # vacuity guard: every scanner rule of the spec fired (counted from the behaviours TLC printed)
     ck.extra.setdefault("actions_covered", {}).update({"Lex" + k.capitalize(): v for k, v in taken.items()})
     if any(taken.get(k, 0) == 0 for k in ("float", "integer", "name", "operator")):
@@ -408,7 +416,7 @@ def run_strings(ck, env):
         shapes["spaced"] += "sp" in rec["s"]
         shapes["escapes"] += any(u["k"] != "src" for u in rec["units"])
         if len(ck.violations) > 200:
-            break
+            continue
         check_string_case(ck, env, rec, concretise(rec["s"], rng, 0), stats)
         if "NA" in rec["s"] or "HH" in rec["s"] or "g" in rec["s"] or "o7" in rec["s"]:
             check_string_case(ck, env, rec, concretise(rec["s"], rng, 1), stats)
